@@ -9,6 +9,7 @@ import warnings
 import numpy as np
 
 import common as C
+import corr_C06 as G
 import mpmath as mp
 import quad_common as Q
 
@@ -16,6 +17,10 @@ INF = float("inf")
 KEY_F4 = "F4-noisy-average-curve-premature-convergence-zero-inside-range"
 KEY_F5 = "F5-noisy-point-mass-average-never-returns"
 MODEL_CAP = 15          # the model follows the loop for at most 2^15 integrand evaluations per curve
+KEY_INT_PARAMS = "C08-integer-typed-parameters-intermediate-not-representable"
+FAR_RATIOS = (1e4, 1e5, 1e6, 1e7)   # |a| / (b-a+12o); the axis stops at 1e7 widths (see far_quantile_case)
+FAR_FIXED = [(1, 4e-3, 0.5, True), (2, 0.1, 1.0, False), (3, 0.3, 1e3, True), (5, 1e-2, 1e-3, False), (1, 4e-3, 0.5, False), (10, 2.0, 30.0, True),
+             (1, 1e-5, 1.0, False), (4, 1e-4, 1e-2, True)]
 
 
 def mp_level(q, n, minimize):
@@ -260,17 +265,117 @@ def gen_noisy(rng, switches, kind):
     return dict(a=a, b=b, c=c, convex=convex, o=s * (b - a))
 
 
+def far_quantile_case(rng, switches, i):
+    """"for every location and scale ... in particular forall locations a": members whose support lies 1e4 .. 1e7 times its own
+    width b-a+12o (the range the quantile is searched on) away from the origin, on either side, widths 1e-3 .. 1e3; the first
+    eight are fixed (tall and flat densities of the numerically inverted regime, every ratio in every run).  The axis stops at 1e7
+    widths: there the spacing of the doubles at |a| (2.2e-9 widths) already exceeds the final bracket of a 30-step bisection
+    (9.3e-10 widths), so no inversion can be sharper than the grid; the unchanged code meets F(t) = level to 5e-6 there
+    (clause: 2e-5), beyond it the grid itself eats the tolerance for the tall densities (c = 1, o -> 1e-6 (b-a))."""
+    if i < len(FAR_FIXED):
+        c, s, w, convex = FAR_FIXED[i]
+        ratio, sg = FAR_RATIOS[i % 4], (1.0 if i < 4 else -1.0)
+    else:
+        c, convex = Q.gen_c(rng), rng.random() < 0.5
+        s = Q.gen_s(rng, switches) if rng.random() < 0.6 else 10.0 ** rng.uniform(-5.5, 0.9)
+        s = min(s, 1e3)
+        w = rng.choice([1e-3, 1.0, 1e3, 10.0 ** rng.uniform(-3, 3), 10.0 ** rng.uniform(-3, 3)])
+        ratio = rng.choice(list(FAR_RATIOS) + [10.0 ** rng.uniform(3.5, 7)])
+        sg = rng.choice([1.0, -1.0])
+    a = sg * ratio * w * (1 + 12 * s)
+    return dict(a=a, b=a + w, c=c, convex=convex, o=s * w, far=ratio)
+
+
+def noisy_quantile_param_part(rep, rng, NQ, n_cases, forced=None):
+    """the PARAMETER-container axis of the noisy quantile curve: integral a, b, o handed to the constructor as Python ints, numpy
+    integer scalars of several widths, or some integer-typed and some float.  The curve is that of the distribution with these
+    numbers as parameters: F(t) = level to 2e-5, with F the cdf of the instance itself and of the instance built from the same
+    numbers as floats (a defect of integer-typed parameters common to cdf and ppf cannot cancel then)."""
+    keyed = 0
+    for i in range(n_cases):
+        if forced is not None:
+            a, b, c, o, convex, mn, q, ns, label_sets = forced
+        else:
+            kind = G.PC_KINDS[i % len(G.PC_KINDS)]
+            if kind == "point":
+                kind = "series"          # the point mass has no level set (its cdf jumps); it is covered by point_mass_part
+            a, b, c, o, convex = G.gen_int_params(rng, kind)
+            mn, q = rng.choice([None, False, True]), gen_q(rng)
+            ns = sorted({1.0, 2.5, 10.0, 100.0, 1000.0, float(rng.randint(2, 999)), 10.0 ** rng.uniform(0, 3)})
+            label_sets = G.param_label_sets(rng, a, b, o)
+        eff = convex if mn is None else mn
+        reg = G.regime_of(a, b, o)
+        rep.count("noisy_qtc:param_container:regime=" + reg)
+        with warnings.catch_warnings():
+            warnings.simplefilter("ignore")
+            dref = NQ(a, b, c, o, convex)
+        for labels in label_sets:
+            hz = G.param_hazard(a, b, o, labels, relevant=G.hazards_for(reg, "ppf"))
+            fkey = KEY_INT_PARAMS if hz else None
+            if hz:
+                rep.count("noisy_qtc:param_container:an_intermediate_is_not_representable_in_the_parameters_dtype")
+                if keyed >= 3:
+                    continue                 # the recorded dtype finding is reported three times per run at most
+            rep.count("noisy_qtc:param_container=" + ("all " + labels[0] if len(set(labels)) == 1 else "mixed"))
+            inp = dict(cls="NoisyQuadraticDistribution", a=C.fhex(a), b=C.fhex(b), c=c, o=C.fhex(o), convex=convex, minimize=mn, q=C.fhex(q), ns=hexl(ns),
+                       param_container="/".join(labels), constructor=G.param_call(a, b, c, o, convex, labels), **({"dtype_hazard": hz} if hz else {}))
+            with warnings.catch_warnings():
+                warnings.simplefilter("ignore")
+                try:
+                    d = NQ(G.as_number(a, labels[0]), G.as_number(b, labels[1]), c, G.as_number(o, labels[2]), convex)
+                    with np.errstate(all="ignore"):
+                        qt = d.quantile_tuning_curve(np.array(ns), q=q, minimize=mn)
+                        qt_s = d.quantile_tuning_curve(ns[1], q=q, minimize=mn)
+                        f_own, f_ref = np.asarray(d.cdf(qt), dtype=float), np.asarray(dref.cdf(np.asarray(qt, dtype=float)), dtype=float)
+                except Exception as e:
+                    keyed += bool(fkey)
+                    rep.violate(what=f"a documented method raised for integral parameters given as {inp['constructor']}", error=repr(e), input=inp,
+                                call="NoisyQuadraticDistribution.quantile_tuning_curve", finding_key=fkey, found_by="param_container")
+                    continue
+            if np.shape(qt) != (len(ns),) or not np.isscalar(qt_s):
+                keyed += bool(fkey)
+                rep.violate(what=f"quantile_tuning_curve: array/scalar shapes are inconsistent [parameters given as {inp['constructor']}]", input=inp,
+                            call="NoisyQuadraticDistribution.quantile_tuning_curve", finding_key=fkey, found_by="param_container")
+                continue
+            for n, t, fo, fr in zip(ns, np.asarray(qt, dtype=float), f_own, f_ref):
+                rep.case(("nqtc_param", labels, inp["a"], inp["b"], c, inp["o"], convex, mn, inp["q"], C.fhex(n)),
+                         sample=dict(cls="NoisyQuadraticDistribution", constructor=inp["constructor"], n=n, q=q, minimize=mn, impl=float(t)))
+                lv = mp_level(q, n, eff)
+                if np.isfinite(t):
+                    err = max(abs(float(fo) - lv), abs(float(fr) - lv))
+                    ok = err <= 2e-5
+                else:
+                    err, ok = INF, ((t == -INF and lv == 0.0) or (t == INF and lv == 1.0))
+                if not ok:
+                    keyed += bool(fkey)
+                    rep.violate(what=f"F(quantile_tuning_curve(n,q)) differs from the level of the best of n draws by {err:.3g} > 2e-5 "
+                                     f"[parameters given as {inp['constructor']}; F = cdf of the instance itself / of the same distribution built from floats]",
+                                input=dict(inp, n=C.fhex(n)), expected=lv, observed=dict(t=float(t), F_own=float(fo), F_float_parameters=float(fr)),
+                                call="NoisyQuadraticDistribution.quantile_tuning_curve", finding_key=fkey, found_by="param_container")
+                    break
+
+
 def qtc_family_search(rep, NQ):
     """failing-input search after a correspondence disagreement on the noisy quantile curve that does not itself break the
     property: the members on which an error of the inversion is amplified most by the cdf (c in {1,2,3}, small modelled
-    noise) at the levels the best of many draws reaches (n up to 1000); the first failure of F(t) = level is the replay"""
-    for c in (1, 2, 3):
-        for s in (1.5e-6, 3e-6, 1e-5, 3e-5, 1e-4, 3e-4, 1e-3, 1e-2):
+    noise) at the levels the best of many draws reaches (n up to 1000), at the origin and - second stage - moved 1e4 .. 1e7 widths
+    (b-a+12o) away from it on either side ("for every location"; a stopping rule relative to |y| instead of to the width shows
+    there); the first failure of F(t) = level is the replay"""
+    def members():
+        for c in (1, 2, 3):
+            for s in (1.5e-6, 3e-6, 1e-5, 3e-5, 1e-4, 3e-4, 1e-3, 1e-2):
+                yield 0.0, 1.0, c, s
+        for ratio in FAR_RATIOS:
+            for sg in (1.0, -1.0):
+                for w in (1.0, 1e-3, 1e3):
+                    for c, s in ((1, 4e-3), (2, 0.1), (5, 1e-2), (10, 1.0)):
+                        yield sg * ratio * w * (1 + 12 * s), w, c, s
+    for a, w, c, s in members():
             for convex in (False, True):
-                rep.count("qtc_family_members_searched")
+                rep.count("qtc_family_members_searched" if a == 0.0 else "qtc_far_location_members_searched")
                 with warnings.catch_warnings():
                     warnings.simplefilter("ignore")
-                    d = NQ(0.0, 1.0, c, s, convex)
+                    d = NQ(a, a + w, c, s * w, convex)
                     for mn in (False, True):
                         for q in (0.1, 0.5, 0.9):
                             ns = np.array([1.0, 3.0, 10.0, 50.0, 200.0, 500.0, 1000.0])
@@ -280,26 +385,38 @@ def qtc_family_search(rep, NQ):
                                 lv = mp_level(q, n, mn)
                                 if np.isfinite(tt) and not abs(float(ff) - lv) <= 2e-5:
                                     rep.violate(what="F(quantile_tuning_curve(n,q)) differs from the level of the best of n draws by more than 2e-5",
-                                                input=dict(cls="NoisyQuadraticDistribution", a=C.fhex(0.0), b=C.fhex(1.0), c=c, o=C.fhex(s),
-                                                           convex=convex, minimize=mn, q=C.fhex(q), ns=hexl([float(n)]), n=C.fhex(float(n))),
+                                                input=dict(cls="NoisyQuadraticDistribution", a=C.fhex(a), b=C.fhex(a + w), c=c, o=C.fhex(s * w),
+                                                           convex=convex, minimize=mn, q=C.fhex(q), ns=hexl([float(n)]), n=C.fhex(float(n)),
+                                                           readable=dict(a=a, b=a + w, c=c, o=s * w, q=q, n=float(n))),
                                                 expected=lv, observed=float(ff), call="NoisyQuadraticDistribution.quantile_tuning_curve",
                                                 found_by="family search after a model/implementation disagreement")
                                     return True
     return False
 
 
-def noisy_quantile_part(rep, rng, drv, NQ, switches, n_cases):
+def noisy_quantile_part(rep, rng, drv, NQ, switches, n_cases, rng_far=None, n_far=0):
     searched = False
     cases = []
     for _ in range(n_cases):
         k = gen_noisy(rng, switches, rng.choice(["generic", "generic", "zero_inside", "noise_free"]))
         k.update(mn=rng.choice([None, False, True]), q=gen_q(rng), ns=sorted(Q.gen_ns(rng, 5)))
         cases.append(k)
-    for k in cases:
+    # far locations: a stream of their own, judged after the cases above (which are therefore the same as before for a given seed)
+    for i in range(n_far):
+        k = far_quantile_case(rng_far, switches, i)
+        k.update(mn=rng_far.choice([None, False, True]), q=gen_q(rng_far), ns=sorted(Q.gen_ns(rng_far, 5)))
+        cases.append(k)
+    for ki, k in enumerate(cases):
+        if ki == n_cases:
+            rng = rng_far
+        if "far" in k:
+            rep.count("noisy_qtc:location_ratio=1e%d" % round(np.log10(k["far"])))
         a, b, c, convex, o, mn, q, ns = k["a"], k["b"], k["c"], k["convex"], k["o"], k["mn"], k["q"], k["ns"]
         S = b - a + 12 * o
         eff = convex if mn is None else mn
         inp = dict(cls="NoisyQuadraticDistribution", a=C.fhex(a), b=C.fhex(b), c=c, o=C.fhex(o), convex=convex, minimize=mn, q=C.fhex(q), ns=hexl(ns))
+        if "far" in k:
+            inp["readable"] = dict(a=a, b=b, c=c, o=o, q=q, ns=ns, location_ratio=k["far"])
         rep.count("noisy_qtc:regime=" + ("noiseless" if o < 1e-6 * (b - a) else "series" if o < 10 * (b - a) else "normal"))
         with warnings.catch_warnings():
             warnings.simplefilter("ignore")
@@ -595,13 +712,16 @@ def run(seed, tier, replay=None):
     drv = C.Driver()
     switches = Q.SWITCH_S + Q.table_min_scales()
     quick = tier == "quick"
-    rp_q = rp_n = None
+    rp_q = rp_n = rp_p = None
     if replay is not None:
         v = replay.get("violation", replay)
         inp = v.get("input", v)
         ns = [C.unhex(t) for t in inp["ns"]] if isinstance(inp.get("ns"), list) else [C.unhex(inp["n"])]
         base = dict(a=C.unhex(inp["a"]), b=C.unhex(inp["b"]), c=int(inp["c"]), convex=bool(inp["convex"]), mn=inp.get("minimize"), ns=ns)
-        if inp.get("cls") == "QuadraticDistribution":
+        if inp.get("param_container"):
+            rp_p = (base["a"], base["b"], base["c"], C.unhex(inp["o"]), base["convex"], base["mn"], C.unhex(inp.get("q", C.fhex(0.5))),
+                    sorted(set(ns + [1.0, 2.0])), [tuple(inp["param_container"].split("/"))])
+        elif inp.get("cls") == "QuadraticDistribution":
             rp_q = dict(base, q=C.unhex(inp.get("q", C.fhex(0.5))), ns=sorted(set(ns + [1.0, 2.0]))[:7], ns_container=inp.get("ns_container"),
                         prime=inp.get("history"))
         else:
@@ -610,8 +730,12 @@ def run(seed, tier, replay=None):
     if replay is None or rp_q is not None:
         calib = noiseless_part(rep, rng, drv, QD, 400 if quick else 6000, rp_q)
     if replay is None:
-        noisy_quantile_part(rep, rng, drv, NQ, switches, 60 if quick else 1000)
-    if replay is None or rp_n is not None:
+        noisy_quantile_part(rep, rng, drv, NQ, switches, 60 if quick else 1000,
+                            rng_far=C.rng_for("C08.far-locations", seed), n_far=24 if quick else 400)
+        noisy_quantile_param_part(rep, C.rng_for("C08.parameter-containers", seed), NQ, 20 if quick else 300)
+    elif rp_p is not None:
+        noisy_quantile_param_part(rep, C.rng_for("C08.parameter-containers", seed), NQ, 1, forced=rp_p)
+    if (replay is None or rp_n is not None) and rp_p is None:
         if rp_n is not None and rp_n["a"] == rp_n["b"]:
             point_mass_part(rep, rng, drv, NQ)
         else:
@@ -621,7 +745,13 @@ def run(seed, tier, replay=None):
     return rep.result(
         rule="noiseless: (a,b) as in C05 incl. point masses, c in 1..10, both shapes, minimize in {None,F,T}, q in {0,1/2,1,...,log-close to 0/1}, "
              "n = 7 sorted reals in [1,1000] incl. 1 and 1000 (array and scalar). noisy quantile curve: generic / zero-inside-range / o=0 "
-             "instances, s on both sides of every switch point. noisy average curve: the two documented probes, then generic / 0 inside "
+             "instances, s on both sides of every switch point; far locations (8 fixed members and random ones of every regime at |a| = 1e4, 1e5, "
+             "1e6, 1e7 and 10^U(3.5,7) times b-a+12o on both sides of the origin, b-a in [1e-3,1e3]; the axis stops at 1e7 widths, where the "
+             "spacing of the doubles at |a| exceeds the final bracket of a 30-step bisection and the unchanged code still meets F(t) = level to "
+             "5e-6; the same ratios are searched after a model/implementation disagreement); integral a, b, o handed to the constructor as "
+             "Python ints / numpy integer scalars of several widths / mixed with floats (F(t) = level to 2e-5 with the cdf of the instance and "
+             "of the float-parameter instance; where an intermediate such as a-6o is not representable in the parameters' integer dtype the "
+             "violation is the recorded finding " + KEY_INT_PARAMS + "). noisy average curve: the two documented probes, then generic / 0 inside "
              "[a-6o,b+6o] / an end of the range within 1e-6..5% of 0 / o=0 / |location| up to 1e7 widths from 0 / widths down to 1e-12; scalar and array n; atol None or in [1e-6 S, 1e-3]; a=b with "
              "o=0 and o>0; every integrated call in a forked child (60 s, +1 GiB). History: before 30% / 40% / 60% of the noiseless / noisy-quantile / "
              "noisy-average cases other calls are made first (inside the forked child where there is one): same_* on the very instance that is "
